@@ -11,8 +11,9 @@ RULE = ("a case = (directory|single-file archive, history of <= 25 operations op
         "FileInfo.write/del/write_dirfile/contains/check, on real temp folders). Sizes from {0,1,15,16,17,1023,1024,1025,65535,"
         "65536,307207} plus random 0..2100, limits {None,0,16,1024}, archive indexes {None,0,1,7}, names from an ASCII+surrogateescape "
         "pool with empty folder/name/extension parts in the three spellings (and unnormalised folder spellings), CRC-32-colliding "
-        "overwrites and non-empty payloads with CRC 0, rejected non-ASCII names. Systematic grid: every (single, limit, index, size) "
-        "written, flushed, reopened r, reopened a, overwritten, reopened. After every open and at random points the observation "
+        "overwrites and non-empty payloads with CRC 0, rejected non-ASCII names. Systematic grids: every (single, limit, index, size) "
+        "written, flushed, reopened r, reopened a, overwritten, reopened; every (single, limit, index, size in {12,17,1025,65548}) overwritten with "
+        "same-length same-CRC-32 data (fixed colliding 12-byte pair embedded in equal buffers, and forged collisions) before and after a reopen. After every open and at random points the observation "
         "(sorted triples, filenames(), read() digest of every file, verify_all(), len, digests of every file on disk) is compared "
         "with the Lean model, which is fed the same history; every written directory file (<= 64 KiB sample) and damaged copies of "
         "it are decoded independently by the model and compared with what a fresh VPK() makes of them. non-trivial = the history "
@@ -85,6 +86,36 @@ def grid_cases(rng):
                         ['open', 'r', None], ['check']]}
 
 
+COLL_A, COLL_B = b'70755edee7d9', b'2aafdca574b0'     # equal length, equal CRC-32
+
+
+def collision_cases(rng):
+    """same-length, same-CRC-32 overwrites in every placement (preload only, preload + numbered archive, numbered
+    archive only, directory tail, single-file tail), before and after a reopen: a fixed colliding pair embedded at the
+    same offset of equal buffers (CRC-32 is linear) and forged 4-byte-suffix collisions of generated payloads."""
+    import zlib
+    assert zlib.crc32(COLL_A) == zlib.crc32(COLL_B) and len(COLL_A) == len(COLL_B)
+    for single in (False, True):
+        for limit in U.LIMITS:
+            for idx in U.INDEXES:
+                for size in (12, 17, 1025, 65536 + 12):
+                    f = U.spell(rng.choice('spt'), *rng.choice([('a', 'n', 'e'), ('', 'n', ''), ('a/b', '', 'txt')]))
+                    pad = U.gen_bytes(rng.randrange(1000), size - 12)
+                    cut = rng.choice([0, len(pad) // 2, len(pad)]) if size <= 2000 else rng.choice([0, 65530, len(pad)])
+                    a = pad[:cut] + COLL_A + pad[cut:]
+                    b = pad[:cut] + COLL_B + pad[cut:]
+                    c = U.collide(b)                      # forged: differs from b everywhere but has its CRC and length
+                    assert len({len(a), len(b), len(c)}) == 1 and len({zlib.crc32(a), zlib.crc32(b), zlib.crc32(c)}) == 1
+                    idx2 = rng.choice([idx, idx, rng.choice(U.INDEXES)])
+                    yield {'single': single, 'ops': [
+                        ['open', 'w', limit], ['add', f, ['x', a.hex()], idx], ['check'],
+                        ['write', f, ['x', b.hex()], idx], ['check'], ['flush'],
+                        ['open', 'r', limit], ['check'],
+                        ['open', 'a', limit], ['write', f, ['x', c.hex()], idx2], ['check'],
+                        ['write', f, ['x', c.hex()], idx], ['check'], ['flush'],
+                        ['open', 'r', None], ['check']]}
+
+
 def _nontrivial(case):
     stores = any(o[0] in ('add', 'write') and len(U.data_of(o[2])) > 0 for o in case['ops'])
     reopens = sum(1 for o in case['ops'] if o[0] == 'open') >= 2
@@ -101,6 +132,9 @@ def _all_cases(ctx):
     cases = [k['witness'] for k in fixed_witnesses()]
     ctx.count('corpus (fixed findings)', len(cases))
     cases += list(grid_cases(rng))
+    coll = list(collision_cases(rng))
+    ctx.count('same-length same-CRC overwrite histories (all placements)', len(coll))
+    cases += coll
     n = ctx.budget(1000, 16000)
     cases += [U.gen_case(rng) for _ in range(n)]
     return cases
